@@ -1,6 +1,6 @@
 CONSTANTS
  Confs <- MCConfs
- FixWaitErr = FALSE
+ FixWaitErr = TRUE
  Reduce = FALSE
  MCShapes = {"img", "dup", "idx2", "dtag", "art"}
  MCPairs = {"tworeg", "samereg", "reg2dir", "dir2reg"}
